@@ -46,6 +46,7 @@ def gen_case(tape, tier):
         "preempt": tape.pick([0.05, 0.3, 0.6, 0.9], "preempt"),
         "short_writes": tape.pick([0.0, 0.0, 0.3], "short-writes"),
         "buffer_size": tape.pick([None, None, 16, 64], "buffer-size"),
+        "show_progress": bool(tape.coin(0.1, "show-progress")),
     }
     if not C.needs_folder(cfg["storage"]):
         cfg["run_folder"] = bool(tape.coin(0.5, "folder"))
@@ -157,7 +158,7 @@ def run_case(case, exec_seed=None, exec_tape=None):
                 inputs = build_inputs(w)
                 executor, parallel = C.make_executor(sim, cfg["executor"])
                 kw = dict(run_folder=folder, storage=C.storage_arg(cfg["storage"]),
-                          persist_memory=cfg["persist_memory"], **map_kwargs(w))
+                          persist_memory=cfg["persist_memory"], show_progress=bool(cfg.get("show_progress")), **map_kwargs(w))
 
                 def main():
                     if cfg["entry"] == "map":
